@@ -94,7 +94,6 @@ class _TB:
 
     def extract_stack(self, f=None, limit=None):
         st = [fr for fr in self._tb.extract_stack() if not fr.filename.endswith(self._HIDE)]
-        st = st[:-1]        # drop this shim's own frame
         return st[-limit:] if limit else st
 
     def __getattr__(self, k):
